@@ -8,6 +8,9 @@
  *   VSHIM_CRASH=key:k         die (SIGKILL) before the k-th mutating call of process `key`
  *   VSHIM_CRASHFLAG=path      created at the crash; every other process dies at its next mutating call
  *   VSHIM_FAULT=key:class:k:errno|short   k-th call of class fails
+ *   VSHIM_CRASH_GEN=n, VSHIM_FAULT_GEN=n  (optional) the crash/fault spec applies only to processes that are n fork()s
+ *                             away from their last exec (0 = the exec'd program itself, 1 = its not-exec'd fork child, ...);
+ *                             needed because counters restart at 0 in a fork child that keeps the parent's key
  *   VSHIM_CLOCK=path          8-byte offset added to time()
  *   VSHIM_DRIVE=prog, VSHIM_CTL=sockpath  driven select() for program `prog`
  *   VSHIM_GATE=sockpath       gate mode: queue-relevant calls ask a scheduler first
@@ -54,10 +57,11 @@ static const char *crashflag;
 static char fault_key[160], fault_class[32]; static long fault_k = -1; static int fault_errno; static int fault_short;
 static long mutcount;
 static long classcount[32];
+static long forkgen; static long crash_gen = -1, fault_gen = -1;
 static volatile long long *clockoff;
 static int drive; static int ctlfd = -1; static const char *ctlpath;
 static const char *gatepath; static int gatefd = -1; static pid_t gatepid;
-static long spins;
+static long spins; static long calls_since_select; static long max_idle_spins;
 static int in_shim;
 
 static int cred_set; static long cred_uid = -1, cred_gid = -1; static char cred_groups[128] = "";
@@ -105,6 +109,8 @@ static void init(void)
   s = getenv("VSHIM_CRASH");
   if (s) { const char *c = strrchr(s, ':'); if (c) { snprintf(crash_key, sizeof crash_key, "%.*s", (int)(c - s), s); crash_k = atol(c + 1); } }
   crashflag = getenv("VSHIM_CRASHFLAG");
+  s = getenv("VSHIM_CRASH_GEN"); if (s && *s) crash_gen = atol(s);
+  s = getenv("VSHIM_FAULT_GEN"); if (s && *s) fault_gen = atol(s);
   s = getenv("VSHIM_FAULT");
   if (s) {
     char b[300], *p, *q; snprintf(b, sizeof b, "%s", s);
@@ -154,6 +160,7 @@ static void fdpath(int fd, char *out, size_t n)
 static void tr(const char *fmt, ...)
 {
   char b[1400]; int n; va_list ap; int e = errno;
+  ++calls_since_select;
   if (tracefd < 0) return;
   n = snprintf(b, sizeof b, "%d\t%s\t", (int)syscall(SYS_getpid), key);
   va_start(ap, fmt); n += vsnprintf(b + n, sizeof b - n - 2, fmt, ap); va_end(ap);
@@ -224,7 +231,7 @@ static void maybe_crash(const char *call, const char *arg)
 {
   if (crashflag) { REAL(access); if (real_access(crashflag, F_OK) == 0) { tr("CRASHED-ALONG\t%s", call); raise(SIGKILL); } }
   tr("M\t%ld\t%s\t%s", mutcount, call, arg ? arg : "-");
-  if (crash_k >= 0 && keymatch(crash_key)) {
+  if (crash_k >= 0 && keymatch(crash_key) && (crash_gen < 0 || crash_gen == forkgen)) {
     if (mutcount == crash_k) {
       tr("CRASH\t%ld\t%s\t%s", mutcount, call, arg ? arg : "-");
       if (crashflag) { REAL(open); REAL(close); int fd = real_open(crashflag, O_WRONLY | O_CREAT, 0644); if (fd >= 0) real_close(fd); }
@@ -239,7 +246,12 @@ static int maybe_fault(const char *cls)
 {
   int ci = classidx(cls); long c = classcount[ci]++;
   if (fault_k < 0 || strcmp(cls, fault_class) || !keymatch(fault_key)) return 0;
+  if (fault_gen >= 0 && fault_gen != forkgen) return 0;
   if (c != fault_k) return 0;
+  { /* exactly one fault per run, also across the processes that share the key */
+    const char *once = getenv("VSHIM_FAULTONCE");
+    if (once) { REAL(open); REAL(close); int fd = real_open(once, O_WRONLY | O_CREAT | O_EXCL, 0644); if (fd < 0) return 0; real_close(fd); }
+  }
   if (fault_short) return 2;
   errno = fault_errno;
   return 1;
@@ -716,7 +728,7 @@ pid_t fork(void)
   REAL(fork); pid_t r; init();
   if (maybe_fault("fork") == 1) { tr("fork\t-1\t%d\tFAULT", errno); return -1; }
   r = real_fork();
-  if (r == 0) { mutcount = 0; memset(classcount, 0, sizeof classcount); spins = 0;
+  if (r == 0) { mutcount = 0; memset(classcount, 0, sizeof classcount); spins = 0; ++forkgen;
     if (gatepath) { if (gatefd >= 0) { REAL(close); real_close(gatefd); gatefd = -1; } gate("REQ", "forked", "-"); } }
   else tr("fork\t%d", (int)r);
   return r;
@@ -770,7 +782,7 @@ static int fmtset(char *b, int n, int nfds, fd_set *s)
 int select(int nfds, fd_set *rf, fd_set *wf, fd_set *ef, struct timeval *tv)
 {
   REAL(select); REAL(read); REAL(write);
-  fd_set r0, w0; struct timeval z; int r; long tmo;
+  fd_set r0, w0; struct timeval z; int r; long tmo; long t_entry = 0; int have_entry = 0;
   init();
   if (!drive && !gatepath) return real_select(nfds, rf, wf, ef, tv);
   if (rf) r0 = *rf; else FD_ZERO(&r0);
@@ -781,20 +793,30 @@ int select(int nfds, fd_set *rf, fd_set *wf, fd_set *ef, struct timeval *tv)
     z.tv_sec = 0; z.tv_usec = 0;
     r = real_select(nfds, rf ? &r1 : 0, wf ? &w1 : 0, 0, &z);
     if (r != 0 || tmo == 0) {
-      if (tmo == 0 && r == 0) ++spins; else spins = 0;
+      if (tmo == 0 && r == 0) { if (calls_since_select == 0) ++spins; else spins = 1; if (spins > max_idle_spins) max_idle_spins = spins; } else spins = 0;
+      calls_since_select = 0;
       if (rf) *rf = r1; if (wf) *wf = w1; if (ef) FD_ZERO(ef);
-      if (tracefd >= 0) { char a[256]; fmtset(a, sizeof a, nfds, rf); tr("select\t%ld\t%d\t%s\t%ld", tmo, r, a, spins); }
+      if (tracefd >= 0 && (r != 0 || spins <= 2)) { char a[256]; fmtset(a, sizeof a, nfds, rf); tr("select\t%ld\t%d\t%s\t%ld", tmo, r, a, spins); calls_since_select = 0; }
       if (tmo == 0 && r == 0 && spins > 100000) { tr("BUSYLOOP\t%ld", spins); raise(SIGKILL); }
       return r;
     }
     /* quiescent: nothing ready and the caller is willing to wait */
     if (gatepath && !drive) { gate("BLK", "select", "-"); continue; }
     {
-      char msg[700], a[256], b[256], rep[64]; int n; ssize_t k; sigset_t all, old; struct pollfd pf;
+      char msg[700], a[256], b[256], rep[64]; int n; ssize_t k; sigset_t all, old; struct pollfd pf; long nowv, remaining;
       if (ctl_connect() < 0) return real_select(nfds, rf, wf, ef, tv);
+      nowv = (long)time(0);
+      if (!have_entry) { t_entry = nowv; have_entry = 1; }
+      remaining = tmo < 0 ? -1 : t_entry + tmo - nowv;
+      if (tmo >= 0 && remaining <= 0) {       /* the driver moved the clock past the deadline */
+        if (rf) FD_ZERO(rf); if (wf) FD_ZERO(wf); if (ef) FD_ZERO(ef);
+        tr("select\t%ld\t0\tTIMEOUT", tmo);
+        return 0;
+      }
       fmtset(a, sizeof a, nfds, rf ? &r0 : 0); fmtset(b, sizeof b, nfds, wf ? &w0 : 0);
-      n = snprintf(msg, sizeof msg, "Q %ld %s %s %ld %ld\n", tmo, a, b, spins, (long)time(0));
-      tr("quiescent\t%ld\t%s\t%s\t%ld", tmo, a, b, spins);
+      n = snprintf(msg, sizeof msg, "Q %ld %s %s %ld %ld %ld\n", remaining, a, b, max_idle_spins, nowv, tmo);
+      max_idle_spins = 0;
+      tr("quiescent\t%ld\t%s\t%s\t%ld\t%ld", remaining, a, b, spins, nowv);
       spins = 0;
       sigfillset(&all); sigprocmask(SIG_BLOCK, &all, &old);
       if (real_write(ctlfd, msg, n) != n) { sigprocmask(SIG_SETMASK, &old, 0); raise(SIGKILL); }
@@ -810,7 +832,7 @@ int select(int nfds, fd_set *rf, fd_set *wf, fd_set *ef, struct timeval *tv)
       k = real_read(ctlfd, rep, 1);
       sigprocmask(SIG_SETMASK, &old, 0);
       if (k <= 0) raise(SIGKILL);
-      if (rep[0] == 'T') {       /* pretend the timeout elapsed (driver advanced the clock) */
+      if (rep[0] == 'T') {       /* pretend the timeout elapsed */
         fd_set r2 = r0, w2 = w0; z.tv_sec = 0; z.tv_usec = 0;
         r = real_select(nfds, rf ? &r2 : 0, wf ? &w2 : 0, 0, &z);
         if (rf) *rf = r2; if (wf) *wf = w2; if (ef) FD_ZERO(ef);
